@@ -46,8 +46,12 @@ def _close(a, b, exact: bool) -> bool:
 
 def fieldwise(n, n2, exact: bool) -> str | None:
     """the relation ≃ of the property between two implementation netlists; returns the first field that differs.
-    `exact` = the arithmetic of the case is exact (dyadic stream): every number must be identical; otherwise centres and
-    areas of hard modules (sums taken in a different order after the trunk moved to the front) get a tolerance."""
+    Everything the property calls "the same" is compared EXACTLY (bit-identical floats, same number tags): names, kinds,
+    per-region areas of soft modules, centres (the centroid is summed with math.fsum, hence independent of the order in
+    which create_stog leaves the rectangles), aspect-ratio bounds, rectangles with regions / flags / roles, nets.
+    Only the area of a HARD module — a derived number that is never written (sum() of the rectangle areas, taken in the
+    new list order after the reload) — is compared with a 1e-9 relative tolerance on the float stream (`exact` = dyadic
+    stream: exact there too)."""
     if len(n.modules) != len(n2.modules):
         return "module-count"
     for m, m2 in zip(n.modules, n2.modules):
@@ -63,9 +67,8 @@ def fieldwise(n, n2, exact: bool) -> str | None:
                 return f"area-regions({m.name}): {dict(m.area_regions)} -> {dict(m2.area_regions)}"
         if (m.center is None) != (m2.center is None):
             return f"center({m.name}): {m.center} -> {m2.center}"
-        if m.center is not None and not (_close(m.center.x, m2.center.x, exact or len(m.rectangles) == 0)
-                                         and _close(m.center.y, m2.center.y, exact or len(m.rectangles) == 0)):
-            return f"center({m.name}): {m.center} -> {m2.center}"
+        if m.center is not None and (m.center.x, m.center.y) != (m2.center.x, m2.center.y):
+            return f"center({m.name}): {m.center!r} -> {m2.center!r}"
         a, a2 = m.aspect_ratio, m2.aspect_ratio
         if (a is None) != (a2 is None) or (a is not None and (a.min_wh, a.max_wh) != (a2.min_wh, a2.max_wh)):
             return f"aspect({m.name}): {a} -> {a2}"
@@ -107,13 +110,10 @@ def spec_roundtrip(doc, eps, mode: str) -> tuple[str, dict] | None:
     if d is not None:
         return "roundtrip:" + d.split("(")[0].split(":")[0], {"difference": d, "text": text[:800]}
     text2 = n2.write_yaml()
-    if text2 != text:
-        if exact:
-            return "dump_stable", {"first": text[:600], "second": text2[:600]}
-        # float stream: centres may move in the last bits (sums re-associated); compare the trees with a tolerance
-        t1, t2 = nc.plain(nc.safe_load(text)), nc.plain(nc.safe_load(text2))
-        if not _trees_close(t1, t2):
-            return "dump_stable", {"first": text[:600], "second": text2[:600]}
+    if text2 != text:       # "writing the reloaded design gives the identical document": string identity, both streams
+        return "dump_stable", {"first": text[:600], "second": text2[:600],
+                               "first-difference": next((f"{a!r} / {b!r}" for a, b in zip(text.splitlines(), text2.splitlines())
+                                                         if a != b), "length")}
     return None
 
 
